@@ -46,6 +46,7 @@ type Result struct {
 
 type helper struct {
 	partial bool // only some of its call sites are inlined: it stays alive
+	defers  bool // the body registers deferred calls: inlined in tail position only
 	obj     *types.Func
 	decl    *ast.FuncDecl
 	pkg     *packages.Package
@@ -203,14 +204,15 @@ func findHelpers(l *load.Loaded, pkg *packages.Package, keep func(helper, caller
 			if sig.TypeParams() != nil || sig.RecvTypeParams() != nil {
 				continue
 			}
-			if why := bodyUnsupported(fd, info); why != "" {
+			why := bodyUnsupported(fd, info)
+			if why != "" && why != "defer" {
 				skipped[obj.FullName()] = why
 				continue
 			}
 			if dead[obj.FullName()] {
 				continue
 			}
-			cands[obj] = &helper{obj: obj, decl: fd, pkg: pkg, file: f}
+			cands[obj] = &helper{obj: obj, decl: fd, pkg: pkg, file: f, defers: why == "defer"}
 		}
 	}
 	if len(cands) == 0 {
@@ -349,13 +351,14 @@ func findHelpers(l *load.Loaded, pkg *packages.Package, keep func(helper, caller
 // bodyUnsupported names the constructs of a helper body that the translation does not handle.
 func bodyUnsupported(fd *ast.FuncDecl, info *types.Info) string {
 	why := ""
+	hasDefer := false
 	ast.Inspect(fd.Body, func(n ast.Node) bool {
 		switch x := n.(type) {
 		case *ast.FuncLit:
 			// returns inside belong to the literal; a recover() inside a deferred literal is covered by DeferStmt
 			return true
 		case *ast.DeferStmt:
-			why = "defer"
+			hasDefer = true
 		case *ast.GoStmt:
 			why = "go statement"
 		case *ast.LabeledStmt:
@@ -373,6 +376,10 @@ func bodyUnsupported(fd *ast.FuncDecl, info *types.Info) string {
 		}
 		return why == ""
 	})
+	if why == "" && hasDefer {
+		// deferred calls run when the enclosing function returns: only a call in tail position may be inlined
+		why = "defer"
+	}
 	return why
 }
 
@@ -459,6 +466,27 @@ func translate(l *load.Loaded, pkg *packages.Package, h *helper, s *site, n int,
 	stmtEnd := stmt.End() // end of the replaced source range
 	list := stmtList(s.stack[si-1])
 	switch st := stmt.(type) {
+	case *ast.ExprStmt:
+		// a void call that is the last statement of a function without results: the function returns when the
+		// helper does, so a return of the helper is a return of the caller
+		if direct && nres == 0 && len(list) > 0 && list[len(list)-1] == stmt && si >= 2 {
+			if blk, ok := s.stack[si-1].(*ast.BlockStmt); ok {
+				var ft *ast.FuncType
+				switch fn := s.stack[si-2].(type) {
+				case *ast.FuncDecl:
+					if fn.Body == blk {
+						ft = fn.Type
+					}
+				case *ast.FuncLit:
+					if fn.Body == blk {
+						ft = fn.Type
+					}
+				}
+				if ft != nil && (ft.Results == nil || len(ft.Results.List) == 0) {
+					mode = "tail"
+				}
+			}
+		}
 	case *ast.ReturnStmt:
 		if direct {
 			mode = "tail"
@@ -541,6 +569,9 @@ func translate(l *load.Loaded, pkg *packages.Package, h *helper, s *site, n int,
 		if badBranch {
 			mode, contIf, stmtEnd = "generic", nil, stmt.End()
 		}
+	}
+	if h.defers && mode != "tail" {
+		return nil, "helper with defer called outside tail position"
 	}
 	if !direct && mode == "generic" {
 		if nres != 1 {
